@@ -298,13 +298,18 @@ int factor_pollard_pm1_method(const Ptr<RCP<const Integer>> &f,
                               const Integer &n, unsigned B, unsigned retries)
 {
     int ret_val = 0;
-    integer_class rop, nm4, c;
+    integer_class rop, nm3, c;
+
+    if (n.as_integer_class() < 4 or B < 3)
+        throw SymEngineException(
+            "Require n > 3 and B > 2 to use Pollard's p-1 method");
 
     mp_randstate state;
-    nm4 = n.as_integer_class() - 4;
+    nm3 = n.as_integer_class() - 3;
 
     for (unsigned i = 0; i < retries and ret_val == 0; ++i) {
-        state.urandomint(c, nm4);
+        // base 2 <= c <= n - 2
+        state.urandomint(c, nm3);
         c += 2;
         ret_val = _factor_pollard_pm1_method(rop, n.as_integer_class(), c, B);
     }
@@ -351,6 +356,10 @@ int factor_pollard_rho_method(const Ptr<RCP<const Integer>> &f,
 {
     int ret_val = 0;
     integer_class rop, nm1, nm4, a, s;
+
+    if (n.as_integer_class() < 5)
+        throw SymEngineException("Require n > 4 to use pollard's-rho method");
+
     mp_randstate state;
     nm1 = n.as_integer_class() - 1;
     nm4 = n.as_integer_class() - 4;
